@@ -18,7 +18,9 @@ B = h.bounds(
 BOUNDS = dict(vars(B), meaning="flows of <= FLOW symbolic ints (bare or with context), crash "
               "point k in 0..len(flow) (consumer stops / downstream raises / upstream raises), "
               "histories of <= HIST operations over {complete run, interrupted run, run with "
-              "recompute=True, drop_cache}, one or two Cache elements, Sequence and "
+              "recompute=True, interrupted recomputing run, drop_cache}, the complete runs of a "
+              "history taken plainly, through Cache.alter_sequence or through "
+              "lena.core.alter_sequence (symbolic), one or two Cache elements, Sequence and "
               "alter_sequence (Source) forms")
 FUNCTIONS = ["lena.flow.cache.Cache.__init__", "Cache.run", "Cache.cache_exists", "Cache.drop_cache",
              "Cache._dump_flow_and_yield", "Cache._load_flow", "Cache.alter_sequence",
@@ -186,11 +188,12 @@ def check_interrupted(xs: List[int], with_ctx: bool, k: int, mode: int, hoist: i
         return h.ok(False)
 
 
-def check_history(xs: List[int], ops: List[int], k: int) -> bool:
+def check_history(xs: List[int], ops: List[int], k: int, hoist: int) -> bool:
     """
     pre: len(xs) <= B.FLOW
     pre: 1 <= len(ops) <= B.HIST
     pre: 0 <= k <= len(xs)
+    pre: 0 <= hoist <= 2
     pre: h.in_shard(len(ops) - 1 + B.HIST * len(xs))
     post: _
     """
@@ -203,7 +206,9 @@ def check_history(xs: List[int], ops: List[int], k: int) -> bool:
             up = Up()
             if o == 0 or o == 2:
                 c = new_cache(fs, recompute=(o == 2))
-                got = list(Sequence(up, c, Down()).run(iter(mkflow(xs, False))))
+                # complete runs go through the symbolic route: plain run,
+                # Cache.alter_sequence or lena.core.alter_sequence
+                got, _src = run_form(Sequence(up, c, Down()), hoist, iter(mkflow(xs, False)))
                 if got != flow:
                     return h.ok(False)
                 if valid is None and o == 0:
@@ -287,7 +292,8 @@ CONDITIONS = [
          smoke=["check_interrupted([1, 2, 3], False, 3, 0, 0)",
                 "check_interrupted([1, 2, 3], False, 3, 2, 1)"]),
     dict(fn="check_history", shards=(15, 24), budget=(70, 1200),
-         smoke=["check_history([1, 2], [0, 0, 3], 1)", "check_history([1, 2], [0, 2, 1], 1)", "check_history([1, 2], [0, 4, 0], 1)"]),
+         smoke=["check_history([1, 2], [0, 0, 3], 1, 0)", "check_history([1, 2], [0, 2, 1], 1, 1)",
+                "check_history([1, 2], [0, 4, 0], 1, 2)", "check_history([1, 2], [0, 2, 0], 1, 1)"]),
     dict(fn="check_two_caches", budget=(60, 600),
          smoke=["check_two_caches([1, 2], 3, 1)", "check_two_caches([1, 2], 1, 0)",
                 "check_two_caches([1, 2], 0, 2)"]),
